@@ -218,7 +218,7 @@ class C03(Prop):
             raising.clear()
 
         def ros():
-            return int(round(mito._ros_accumulated * 10))
+            return int(round(mito.get_ros_level() * 10))
 
         for li, line in enumerate(case["lines"]):
             t = line.split()
@@ -266,27 +266,31 @@ class C03(Prop):
                     expr = expr + " " * (mm.MAX_EXPRESSION_LENGTH + 1)
                     pathway = P.OXIDATIVE
                 elif mode == "ros":
-                    saved = mito._ros_accumulated
-                    mito._ros_accumulated = mito.max_ros
+                    # latch the ROS guard through the public surface: lower the public threshold to the current level
+                    saved = mito.max_ros
+                    mito.max_ros = mito.get_ros_level()
                     pathway = P.OXIDATIVE
                 elif mode == "forced-oxid":
                     pathway = P.OXIDATIVE
                 elif mode == "forced-other":
                     pathway = P.GLYCOLYSIS
                 detected = []
-                if mode == "auto":
+                hooked = mode == "auto" and hasattr(mito, "_detect_pathway")
+                if hooked:
                     orig = mito._detect_pathway
                     mito._detect_pathway = lambda e, _o=orig: (detected.append(_o(e)), detected[-1])[1]
                 try:
                     r = mito.metabolize(expr, pathway)
                     res = "ok" if r.success else "fail"
+                    if mode == "auto" and not detected and getattr(r, "pathway", None) is not None:
+                        detected.append(r.pathway)          # the result names the pathway attempted
                 except Exception as e:  # property: never raises
                     res = f"raise:{type(e).__name__}"
                 finally:
-                    if mode == "auto":
+                    if hooked:
                         del mito._detect_pathway
                     if saved is not None:
-                        mito._ros_accumulated = saved
+                        mito.max_ros = saved
                 eff = {"long": "long", "ros": "ros", "forced-oxid": "oxid", "forced-other": "other"}.get(mode)
                 if mode == "auto":
                     eff = "oxid" if detected and detected[0] == P.OXIDATIVE else "other"
